@@ -914,6 +914,16 @@ def run(ctx):
             ident = id(A)
             op = rng.choice(["+=", "-=", "*=", "/=" if tc != "i" else "+=", "%=" if tc != "z" else "*="])
             val = {"i": 3, "d": 1.5, "z": 1.5}[tc]
+            kind_ = rng.choice(["number", "number", "1x1", "matrix", "sparse"]) if op in ("+=", "-=") else "number"
+            if kind_ == "1x1":
+                val = matrix(val, (1, 1), tc)
+            elif kind_ == "matrix":
+                val = matrix(val, (m, n), tc)
+            elif kind_ == "sparse" and tc != "i" and m * n:
+                # a full sparse operand of the same size keeps the result dense: an allowed in-place operation
+                val = spmatrix([1.5] * (m * n), [i for j in range(n) for i in range(m)], [j for j in range(n) for i in range(m)], (m, n), "d")
+            ctx.count("alias.inplace-operand." + (kind_ if not (kind_ == "sparse" and (tc == "i" or not m * n)) else "number"))
+            view = memoryview(A) if rng.random() < 0.5 else None       # a held export must see the update too
             before = list(A)
             if op == "+=":
                 A += val
@@ -932,6 +942,14 @@ def run(ctx):
                            if x == x and abs(x) < 1e15]
                 c.require(all(changed), "alias:inplace-not-visible", "%s is not visible through the other name" % op,
                           before=before, after=B)
+                if view is not None:
+                    import numpy as _np
+                    seen = _np.asarray(view).reshape(-1, order="F").tolist() if view.ndim > 1 else _np.asarray(view).tolist()
+                    c.require(same_vals([{"i": int, "d": float, "z": complex}[tc](x) for x in seen], list(A), tc),
+                              "alias:inplace-not-visible-through-held-export",
+                              "%s is not visible through a memoryview exported before the operation" % op)
+            if view is not None:
+                view.release()
             return
         if how == "matrix(x)":
             B = matrix(A)
